@@ -4,6 +4,11 @@ import json, os
 V = os.path.dirname(os.path.dirname(os.path.abspath(__file__)))
 # property -> (technique, DESIGN section)
 CLAIMED = {
+ "C04": ("bounded-exhaustive enumeration of all (first,last,step) triples and encodings for rank 1-2 parents plus rapidcheck-drawn ranges for ranks 3-5, mixed/compile-time ranges and scalar indices, against an offset-list slice model over 13 consumption routes", "5/C04"),
+ "C05": ("enumerated and rapidcheck-drawn slice writes and write histories against a plain-array model with whole-parent bitwise comparison, guard-window and source-unchanged checks", "5/C05"),
+ "C09": ("generated statement programs rendered twice (lazy operators vs eager functions into temporaries) from one tree and compared; chains also against the explicit left-to-right product; long-double interpreter supplies the rounding bound", "5/C09"),
+ "C16": ("rapidcheck-drawn and enumerated inputs (sign classes, all 2^n boolean patterns) for every reduction/predicate/scalar function against __int128 / long-double folds and Bareiss determinants", "5/C16"),
+ "C18": ("enumerated and rapidcheck-drawn overlapping range pairs with noalias() (and perfect overlap without) against a snapshot model with whole-tensor comparison", "5/C18"),
  "C07": ("rapidcheck + libFuzzer (ASan/UBSan) over operands placed flush against guard pages at every misalignment, painted windows, armed allocation counter, out-of-range index draws; other properties' bodies re-run under sanitised builds", "5/C07"),
  "C14": ("rapidcheck-driven exact index-map oracle over all axis permutations of ranks 2-5 (sampled rank 6) and a transpose lattice, on bijective ramps and random data", "5/C14"),
  "C17": ("rapidcheck-driven exact differential test of tmatmul against the general product over (type,M,K,N,tag pair,form) instances with operands clipped to their tagged triangle", "5/C17"),
